@@ -43,12 +43,14 @@ ROUTERS = [U("Direct.next_node"), U("Leave.next_node"), U("Probabilistic.next_no
 
 SCHEDULES = [U("Schedule.get_schedule_generator"), U("Schedule.initialise"), U("Schedule.get_next_shift"),
              U("Slotted.get_next_slot"), U("Slotted.initialise"), U("Node.kill_server"), U("Node.add_new_servers"),
-             U("Node.take_servers_off_duty"), U("Node.begin_service_if_possible_change_shift"), U("Node.change_shift", "Node")]
+             U("Node.take_servers_off_duty"), U("Node.begin_service_if_possible_change_shift"), U("Node.change_shift", "Node"),
+             U("Node.interrupt_service")]
 EXACT = [U("ExactNode.get_service_time"), U("ExactArrivalNode.inter_arrival"), U("ExactNode.increment_time"), U("ExactArrivalNode.increment_time")]
 
 PROPS = {
     "C01": dict(units=TRANSFER + ARRIVAL[:4]),
-    "C02": dict(units=[U("Simulation.find_next_active_node"), U("ArrivalNode.find_next_event_date"), U("Node.begin_service_if_possible_change_shift")] + NEXT_EVENT + START +
+    "C02": dict(units=[U("Simulation.find_next_active_node"), U("ArrivalNode.find_next_event_date"), U("Node.begin_service_if_possible_change_shift"),
+                       U("Node.interrupt_service")] + NEXT_EVENT + START +
                 [U("Node.release"), U("Node.renege"), U("Node.decide_class_change")] + LOOPS[:3]),
     "C03": dict(units=[U("Node.release"), U("Node.renege"), U("Node.finish_service"), U("Node.accept"), U("ArrivalNode.have_event"),
                        U("Node.begin_interrupted_individuals_service")]),
@@ -69,6 +71,7 @@ PROPS = {
     "C10": dict(units=[U("Distribution._sample"), U("ArrivalNode.find_next_event_date"), U("Node.decide_class_change"),
                        U("ArrivalNode.have_event"), U("ArrivalNode.batch_size"), U("ArrivalNode.inter_arrival"), U("Node.renege"), U("Node.release"), U("Node.accept")] + START + EXACT[:2]),
     "C11": dict(units=[U("Node.begin_interrupted_individuals_service"), U("Node.decide_preempt"), U("Node.preempt"), U("Node.change_customer_class_while_waiting"),
+                       U("Node.interrupt_service"),
                        U("Node.begin_service_if_possible_accept"), U("Node.begin_service_if_possible_release")]),
     "C12": dict(units=SCHEDULES + [U("Node.decide_preempt"), U("Node.decide_next_event"), U("Node.update_next_end_service_without_server"), U("Node.update_next_event_date"),
                        U("Node.begin_interrupted_individuals_service"), U("Node.begin_service_if_possible_release"),
